@@ -203,8 +203,54 @@ theorem distinct_drain (q : List (List Byte)) (s : St) (log : List Call) (h : Di
     unfold drain
     exact ih _ _ (distinct_process s m h)
 
-theorem distinct_syncLoop (fails : Nat → Bool) (q : List (List Byte)) (s : St) (n : Nat) (log : List Call) (h : Distinct s) :
-    Distinct (syncLoop fails q s n log).1 := by
+theorem distinct_await (s : St) (tag : Nat) (s' : St) (i : Nat) (h : Distinct s) (ha : await s tag = some (s', i)) :
+    Distinct s' := by
+  unfold await at ha
+  cases hr : reserve s.arr s.idlen tag with
+  | none => rw [hr] at ha; cases ha
+  | some pr =>
+    obtain ⟨a, j⟩ := pr
+    rw [hr] at ha
+    simp only [Option.some.injEq, Prod.mk.injEq] at ha
+    obtain ⟨rfl, rfl⟩ := ha
+    have := reserve_fresh s.arr s.idlen tag a j (by intro es he; simpa [Distinct, he] using h) hr
+    simpa [Distinct] using this.2.2.2.1
+
+theorem distinct_followUp (follow : Nat → Option Nat) (s : St) (t : Nat) (h : Distinct s) : Distinct (followUp follow s t) := by
+  unfold followUp
+  cases follow t with
+  | none => exact h
+  | some t' =>
+    simp only []
+    cases ha : await s t' with
+    | none => exact h
+    | some pr => obtain ⟨s', i⟩ := pr; exact distinct_await s t' s' i h ha
+
+theorem distinct_processF (follow : Nat → Option Nat) (s : St) (m : List Byte) (h : Distinct s) :
+    Distinct (processF follow s m).1 := by
+  unfold processF
+  have hp := distinct_process s m h
+  generalize process s m = r at hp
+  obtain ⟨s1, c⟩ := r
+  cases c with
+  | none => exact hp
+  | some c =>
+    obtain ⟨tg, msg⟩ := c
+    cases tg with
+    | none => exact hp
+    | some t => exact distinct_followUp follow _ t hp
+
+theorem distinct_drainF (follow : Nat → Option Nat) (q : List (List Byte)) (s : St) (log : List Call) (h : Distinct s) :
+    Distinct (drainF follow q s log).1 := by
+  induction q generalizing s log with
+  | nil => simpa [drainF, Distinct] using h
+  | cons m ms ih =>
+    unfold drainF
+    exact ih _ _ (distinct_processF follow s m h)
+
+theorem distinct_syncLoop (fails : Nat → Bool) (follow : Nat → Option Nat) (q : List (List Byte)) (s : St) (n : Nat)
+    (log : List Call) (h : Distinct s) :
+    Distinct (syncLoop fails follow q s n log).1 := by
   induction q generalizing s n log with
   | nil => cases n <;> simpa [syncLoop, Distinct] using h
   | cons m ms ih =>
@@ -228,16 +274,18 @@ theorem distinct_syncLoop (fails : Nat → Bool) (q : List (List Byte)) (s : St)
               | some es =>
                 simp only [Option.map_some, Option.getD_some]
                 exact nodup_deactivate es rid (by simpa [Distinct, ha] using h)
+            have hd2 := distinct_followUp follow _ t hd
             simp only []
             split
-            · simpa [Distinct] using hd
-            · exact ih _ _ _ hd
+            · simpa [Distinct] using hd2
+            · exact ih _ _ _ hd2
         | err e => simpa [Distinct] using h
         | null => simpa [Distinct] using h
         | oob => simpa [Distinct] using h
         | fault => simpa [Distinct] using h
 
-theorem distinct_sync (fails : Nat → Bool) (s : St) (h : Distinct s) : Distinct (sync fails s).1 := by
+theorem distinct_sync (fails : Nat → Bool) (follow : Nat → Option Nat) (s : St) (h : Distinct s) :
+    Distinct (sync fails follow s).1 := by
   unfold sync
   cases ha : s.arr with
   | none => simpa [Distinct, ha] using h
@@ -245,27 +293,15 @@ theorem distinct_sync (fails : Nat → Bool) (s : St) (h : Distinct s) : Distinc
     simp only []
     split
     · simpa [Distinct, ha] using h
-    · have hl := distinct_syncLoop fails s.inq s (active es).length [] h
+    · have hl := distinct_syncLoop fails follow s.inq s (active es).length [] h
       split
       · simp only [Distinct, Option.getD_some]
         rw [activeIds_active]
         exact hl
       · exact hl
 
-theorem distinct_await (s : St) (tag : Nat) (s' : St) (i : Nat) (h : Distinct s) (ha : await s tag = some (s', i)) :
-    Distinct s' := by
-  unfold await at ha
-  cases hr : reserve s.arr s.idlen tag with
-  | none => rw [hr] at ha; cases ha
-  | some pr =>
-    obtain ⟨a, j⟩ := pr
-    rw [hr] at ha
-    simp only [Option.some.injEq, Prod.mk.injEq] at ha
-    obtain ⟨rfl, rfl⟩ := ha
-    have := reserve_fresh s.arr s.idlen tag a j (by intro es he; simpa [Distinct, he] using h) hr
-    simpa [Distinct] using this.2.2.2.1
-
-theorem distinct_rstep (fails : Nat → Bool) (s : St) (op : ROp) (h : Distinct s) : Distinct (rstep fails s op).1 := by
+theorem distinct_rstep (fails : Nat → Bool) (follow : Nat → Option Nat) (s : St) (op : ROp) (h : Distinct s) :
+    Distinct (rstep fails follow s op).1 := by
   cases op with
   | await tag =>
     simp only [rstep]
@@ -273,12 +309,13 @@ theorem distinct_rstep (fails : Nat → Bool) (s : St) (op : ROp) (h : Distinct 
     | none => exact h
     | some pr => obtain ⟨s', i⟩ := pr; exact distinct_await s tag s' i h ha
   | send d => simpa [rstep, send, Distinct] using h
-  | answer fs => exact distinct_drain _ s [] h
-  | sync fs => exact distinct_sync fails _ (by simpa [Distinct] using h)
+  | answer fs => exact distinct_drainF follow _ s [] h
+  | sync fs => exact distinct_sync fails follow _ (by simpa [Distinct] using h)
 
-theorem distinct_rrun (fails : Nat → Bool) (s : St) (ops : List ROp) (h : Distinct s) : Distinct (rrun fails s ops).1 := by
+theorem distinct_rrun (fails : Nat → Bool) (follow : Nat → Option Nat) (s : St) (ops : List ROp) (h : Distinct s) :
+    Distinct (rrun fails follow s ops).1 := by
   induction ops generalizing s with
   | nil => exact h
-  | cons op ops ih => simp only [rrun]; exact ih _ (distinct_rstep fails s op h)
+  | cons op ops ih => simp only [rrun]; exact ih _ (distinct_rstep fails follow s op h)
 
 end Mpt.Requester
